@@ -284,8 +284,12 @@ impl RecordDefinition<NativeDatumDetails> {
     /// This is used to determine the size of the byte buffer required to store any variant of this
     /// record definition.
     pub fn max_size(&self) -> usize {
-        self.datum_definitions()
-            .map(|d| d.details().offset() + d.details().size())
+        self.variants()
+            .flat_map(|v| v.data())
+            .map(|d| {
+                let datum = &self[d];
+                datum.details().offset() + datum.details().size()
+            })
             .max()
             .unwrap_or(0)
     }
